@@ -17,6 +17,7 @@ from ..loader import AnalysisError
 from ..pe import ConfigRejected, Tensor, PyRaise
 from .. import oracle, quant
 from ..qir import Fwd, value_set, Env
+from ..qir import equal_mod_finite
 from ..nf import show
 from ..vset import VS
 
@@ -69,6 +70,12 @@ def eval_reporter(repo, cls, kw, name):
   return F(v)
 
 
+FLAG_OPTIONS = ("keep_negative", "symmetric", "use_sigmoid",
+                "use_stochastic_rounding", "use_real_tanh",
+                "use_real_sigmoid", "is_quantized_clip", "use_ste",
+                "use_01")
+
+
 def run(rep, repo, tier):
   mod = repo.module(quant.QMOD)
   rep.trusted.append("semantics table of TF/Keras primitives in "
@@ -112,6 +119,32 @@ def run(rep, repo, tier):
     if npoints % 97 == 1:
       rep.sample({"config": cfg, "forward_nf": show(f, 200),
                   "value_set": repr(got), "declared": txt})
+    # R5 flag spellings: qkeras writes its boolean options both as bool and
+    # as 0/1 (its own printers emit 0/1); both spellings must select the
+    # same format
+    for opt, val in sorted(kw.items()):
+      if isinstance(val, bool):
+        twin = int(val)
+      elif isinstance(val, int) and val in (0, 1) and opt in FLAG_OPTIONS:
+        twin = bool(val)
+      else:
+        continue
+      kw2 = dict(kw)
+      kw2[opt] = twin
+      try:
+        b2 = quant.build(repo, cls, kw2)
+      except ConfigRejected as e:
+        rep.fail("R5", unit, "flag-spelling-rejected:" + opt,
+                 "%s accepts %s=%r but rejects %s=%r: %s" % (
+                     cfg, opt, val, opt, twin, e), instance=cfg)
+        continue
+      f2 = b2.fwd("infer")
+      rep.check(f2 == f or equal_mod_finite(f2, f), "R5", unit,
+                "flag-spelling-changes-function:" + opt,
+                "%s: with %s=%r instead of %r the forward value is %s "
+                "instead of %s" % (cfg, opt, twin, val, show(f2, 200),
+                                   show(f, 200)),
+                loc=b2.pe.loc_of(b2.term), instance=cfg)
     # R2 reporters (no scale)
     if kw.get("alpha", None) is None:
       try:
